@@ -22,8 +22,9 @@ EXTENDS DispatchLedger, TraceLib, Json
 TraceLog == ndJsonDeserialize("trace.ndjson")
 N == Len(TraceLog)
 
-VARIABLE l
-tvars == <<lvars, l>>
+VARIABLES l,    \* position in TraceLog
+          wc    \* 1: the placement algorithm of the run is work-conserving (round-robin, greedy); 0: partition
+tvars == <<lvars, l, wc>>
 
 ASSUME HWInit
 
@@ -33,9 +34,9 @@ Is(e) == l <= N /\ Ev.e = e /\ l' = l + 1
 CfgOf(cs) == [i \in 1..Len(cs) |-> [slots |-> cs[i].slots, sregs |-> cs[i].sregs, vregs |-> cs[i].vregs, lds |-> cs[i].lds]]
 EmptyCfg == <<>>
 
-TInit == L_Init(EmptyCfg) /\ l = 1
+TInit == L_Init(EmptyCfg) /\ l = 1 /\ wc = 1
 
-TReset == Is("Reset") /\ L_Reset(CfgOf(Ev.cus))
+TReset == Is("Reset") /\ L_Reset(CfgOf(Ev.cus)) /\ wc' = Ev.wc
 
 DescOf(ev) ==
   LET ids == {ev.wgs[i][1] : i \in 1..Len(ev.wgs)} IN
@@ -45,22 +46,26 @@ DescOf(ev) ==
 
 LocsOf(ev) == [i \in 1..Len(ev.locs) |-> [simd |-> ev.locs[i][1], s |-> ev.locs[i][2], v |-> ev.locs[i][3], l |-> ev.locs[i][4]]]
 
-TLaunch  == Is("Launch") /\ L_Launch(Ev.k, DescOf(Ev))
-TStart   == Is("Start") /\ L_Start(Ev.k)
-TMap     == Is("MapWG") /\ L_Map(Ev.m, Ev.k, Ev.w, Ev.c, LocsOf(Ev), Ev.pid, IF Ev.al = 1 THEN {} ELSE {"map_shape"})
-TTakeMap == Is("TakeMap") /\ L_TakeMap(Ev.m)
-TComplete == Is("Complete") /\ L_Complete(Ev.mid, Ev.c, Range(Ev.ids))
-TConsume == Is("Consume") /\ L_Consume(Ev.mid)
-TRsp     == Is("Rsp") /\ L_Rsp(Ev.k)
-TTakeRsp == Is("TakeRsp") /\ L_TakeRsp(Ev.k)
+TLaunch  == Is("Launch") /\ L_Launch(Ev.k, DescOf(Ev)) /\ UNCHANGED wc
+TStart   == Is("Start") /\ L_Start(Ev.k) /\ UNCHANGED wc
+TMap     == Is("MapWG") /\ L_Map(Ev.m, Ev.k, Ev.w, Ev.c, LocsOf(Ev), Ev.pid, IF Ev.al = 1 THEN {} ELSE {"map_shape"}) /\ UNCHANGED wc
+TTakeMap == Is("TakeMap") /\ L_TakeMap(Ev.m) /\ UNCHANGED wc
+TComplete == Is("Complete") /\ L_Complete(Ev.mid, Ev.c, Range(Ev.ids)) /\ UNCHANGED wc
+TConsume == Is("Consume") /\ L_Consume(Ev.mid) /\ UNCHANGED wc
+TRsp     == Is("Rsp") /\ L_Rsp(Ev.k) /\ UNCHANGED wc
+TTakeRsp == Is("TakeRsp") /\ L_TakeRsp(Ev.k) /\ UNCHANGED wc
 
-\* The CP sleeps (no event pending).  It may not leave a work-group waiting that an idle CU could hold
-\* (resources are all returned when a work-group finishes), unless its ToCUs port is full.
-TIdle == Is("Idle") /\ (Len(toCU) < 4096 => ~Starved) /\ UNCHANGED lvars
+\* The CP sleeps (no event pending).  Under a work-conserving placement it may not leave a work-group
+\* waiting that an idle CU could hold (resources are all returned when a work-group finishes), unless its
+\* ToCUs port is full; under any placement it may not sleep with a work-group waiting while nothing at all
+\* is resident or in flight (nothing would ever wake it).
+TIdle == /\ Is("Idle")
+         /\ Len(toCU) < 4096 => (IF wc = 1 THEN ~Starved ELSE ~Stuck)
+         /\ UNCHANGED <<lvars, wc>>
 
 \* The harness drained every port, every CU reported everything, no event is pending: every launch
 \* must have been answered.
-TQuiesce == Is("Quiesce") /\ PortsQuiet /\ AllAnswered /\ UNCHANGED lvars
+TQuiesce == Is("Quiesce") /\ PortsQuiet /\ AllAnswered /\ UNCHANGED <<lvars, wc>>
 
 TNext == TReset \/ TLaunch \/ TStart \/ TMap \/ TTakeMap \/ TComplete \/ TConsume \/ TRsp \/ TTakeRsp
          \/ TIdle \/ TQuiesce
